@@ -27,6 +27,8 @@ int eng_fork_run(void (*fn)(void *), void *ud, const char *stderr_path, int time
     if (nul >= 0) { dup2(nul, 1); close(nul); }
     signal(SIGALRM, SIG_DFL);
     alarm((unsigned)timeout_s);
+    simlog_reset();     /* the run's event log starts here: nothing of the worker's earlier runs may enter it */
+    heap_log_rebase();
     fn(ud);
     fflush(stderr);
     _exit(0);
